@@ -472,6 +472,16 @@ func genBundle(g *Gen, o BundleOpts) *Bundle {
 		}
 		paths[pth] = pi
 	}
+	// path items given by $ref (W: path-item $refs target shared objects; Swagger 2.0 has no section for them, an
+	// extension of the root is used)
+	sharedPI := M{}
+	if g.p(0.25) {
+		op := M{"operationId": fmt.Sprintf("sharedItemOp%d", ids.n), "responses": M{"200": M{"description": "via path item", "schema": b.bschema("", 2, 0.35)}}}
+		ids.n++
+		sharedPI["pi0"] = M{g.pick(allMethods): op}
+		paths["/via/item"] = M{"$ref": "#/x-path-items/pi0"}
+		g.hit("pathitem:ref")
+	}
 	b.injectScenario(o.Scenario, rootDefs, paths, aux, params, resps)
 	var mustFail bool
 	var plusWhat []string
@@ -489,6 +499,9 @@ func genBundle(g *Gen, o BundleOpts) *Bundle {
 	}
 	if len(resps) > 0 {
 		root["responses"] = resps
+	}
+	if len(sharedPI) > 0 && paths["/via/item"] != nil {
+		root["x-path-items"] = sharedPI
 	}
 	if !b.plus {
 		// W: every $ref resolves.  A planted scenario may have replaced a root definition that anonymous pointers
@@ -612,6 +625,11 @@ func (b *bgen) injectScenario(name string, rootDefs, paths M, aux map[string]M, 
 		prop := g.pick([]string{"item", "a b", "x/y", "t~x"})
 		auxRef := relRef("", ap) + "#/definitions/" + urlFragEscape(jsonPtrEscape(cn))
 		rootDefs[holder] = M{"type": "object", "properties": M{prop: M{"$ref": auxRef}, "n": M{"type": "integer"}}}
+		if g.p(0.5) {
+			// the $ref to the colliding import sits inside an inline sub-schema, which is what the (single) pointer designates
+			rootDefs[holder].(M)["properties"].(M)[prop] = M{"type": "object", "properties": M{"t": M{"$ref": auxRef}, "u": M{"type": "string"}}}
+			g.hit("scenario:collide-pointer-inline-target")
+		}
 		paths["/scn/pointer"] = M{"get": resp(M{"$ref": "#/definitions/" + jsonPtrEscape(holder) + "/properties/" + jsonPtrEscape(prop)})}
 		if g.p(0.6) {
 			paths["/scn/root"] = M{"get": resp(M{"$ref": "#/definitions/" + jsonPtrEscape(rn)})}
